@@ -286,7 +286,7 @@ class CodeGenerator(nunavut._generators.AbstractGenerator):
     ) -> None:
         newline_pattern = re.compile(r"\n|\r\n", flags=re.MULTILINE)
         line_buffer = io.StringIO()
-        for part in template_gen:
+        for part in _hold_back_split_line_endings(template_gen):
             search_pos = 0  # type: int
             match_obj = newline_pattern.search(part, search_pos)
             while True:
@@ -1011,3 +1011,22 @@ class SupportGenerator(CodeGenerator):
                         resource_line_tuple = line_pp(resource_line_tuple)
                     target_file.write(resource_line_tuple[0])
                     target_file.write(resource_line_tuple[1])
+
+
+# +---------------------------------------------------------------------------+
+# | JINJA : helpers
+# +---------------------------------------------------------------------------+
+
+
+def _hold_back_split_line_endings(parts: typing.Iterable[str]) -> typing.Generator[str, None, None]:
+    """
+    Re-chunks a stream of text so that a CRLF line ending is never split across two parts: a carriage return at
+    the end of a part is held back and prepended to the next part. The concatenated text is unchanged.
+    """
+    held = ""
+    for part in parts:
+        part = held + part
+        held = "\r" if part.endswith("\r") else ""
+        yield part[: len(part) - len(held)]
+    if held:
+        yield held
